@@ -13,6 +13,20 @@ from .. import env, verdict
 
 PROP = "C05"
 FIXED_TEXTS = [
+    # rules whose replacement is built from small compiled templates (min, max, list, reversed, heapq.nsmallest ...), then the same names as search patterns
+    "import sys\nxs = [3, 1, 2] + [len(sys.argv)]\nprint(sorted(xs)[0], sorted(xs)[-1], sorted(xs)[:2], sorted(xs)[-2:], list(reversed(sorted(xs))), min(xs), max(xs))\n",
+    # a module with global / nonlocal declarations, then unrelated modules that happen to use the same names for unused variables
+    "_cache = None\n\n\ndef load():\n    global _cache, counter\n    _cache = 1\n    counter = 2\n    return _cache\n\n\ndef outer():\n    state = 0\n    def inner():\n        nonlocal state\n        state += 1\n    inner()\n    return state\n\n\nprint(load(), outer())\n",
+    "def build_index():\n    print('built')\n    return {}\n\n\ndef run():\n    _cache = build_index()\n    counter = build_index()\n    state = build_index()\n    return 2\n\n\nprint(run())\n",
+    # several *numbered* generated constants (values that do not make a name of their own)
+    "def ga():\n    return (11, 22, 33, 44, 55, 66, 77), [100, 200, 300, 400, 500, 600], {1.5: 2.5, 3.5: 4.5, 5.5: 6.5}\n\n\ndef gb():\n    return (11, 22, 33, 44, 55, 66, 77), [100, 200, 300, 400, 500, 600], {1.5: 2.5, 3.5: 4.5, 5.5: 6.5}\n\n\n"
+    "def gc():\n    return (11, 22, 33, 44, 55, 66, 77), [100, 200, 300, 400, 500, 600], {1.5: 2.5, 3.5: 4.5, 5.5: 6.5}\n\n\ndef gd():\n    return (11, 22, 33, 44, 55, 66, 77), [100, 200, 300, 400, 500, 600], {1.5: 2.5, 3.5: 4.5, 5.5: 6.5}\n\n\n"
+    "def ge():\n    return (11, 22, 33, 44, 55, 66, 77), [100, 200, 300, 400, 500, 600], {1.5: 2.5, 3.5: 4.5, 5.5: 6.5}\n\n\nprint(ga(), gb(), gc(), gd(), ge())\n",
+    # two and more named generated constants
+    "def fa():\n    return 'a long shared text, repeated often' + 'a' + 'another text that is shared by many'\n\n\ndef fb():\n    return 'a long shared text, repeated often' + 'b' + 'another text that is shared by many'\n\n\n"
+    "def fc():\n    return 'a long shared text, repeated often' + 'c' + 'another text that is shared by many'\n\n\ndef fd():\n    return 'a long shared text, repeated often' + 'd' + 'another text that is shared by many'\n\n\n"
+    "def fe():\n    return 'a long shared text, repeated often' + 'e' + 'another text that is shared by many' + 'a third one, also in every function'\n\n\ndef ff():\n    return 'a third one, also in every function' * 2\n\n\n"
+    "def fg():\n    return ['a third one, also in every function', 'a third one, also in every function', 'a third one, also in every function']\n\n\nprint(fa(), fb(), fc(), fd(), fe(), ff(), fg())\n",
     "x = reversed(sorted([3, 1, 2]))\nprint(list(x))\ny = reversed(sorted([3, 1, 2], reverse=True))\nprint(list(y))\n",
     "class K:\n    def a(self):\n        return 1\n\n    def b(self, v):\n        return self.c(v)\n\n    @classmethod\n    def c(cls, v):\n        return v\n\n    def d(self, v):\n        return K.c(v)\n\n\nprint(K().a(), K().b(2))\n",
     "a = [x for x in (y for y in range(3))]\nb = {k for k in {j for j in range(4)}}\nprint(a, b)\n",
@@ -24,7 +38,7 @@ FIXED_TEXTS = [
     "d = {}\nd['a'] = 1\nd['b'] = 2\nfor k in d.keys():\n    print(k, d[k])\n",
     "def g():\n    a = sorted(list(range(3)))\n    b = list(list(a))\n    return set(list(b))\n\n\nprint(g())\n",
 ]
-PATTERNS = [("{{f}}({{x}})", "{{f}}({{x}}, 1)"), ("{{a}} = {{b}}", "{{a}} = ({{b}})"), ("print({{...*}})", "log()"), ("return {{x}}", "return ({{x}})"),
+PATTERNS = [("min", "lowest"), ("max({{x}})", "hi({{x}})"), ("list", "tuple"), ("heapq.nsmallest", "smallest"), ("reversed({{x}})", "rev({{x}})"), ("{{f}}({{x}})", "{{f}}({{x}}, 1)"), ("{{a}} = {{b}}", "{{a}} = ({{b}})"), ("print({{...*}})", "log()"), ("return {{x}}", "return ({{x}})"),
             ("[{{x}} for {{x}} in {{it}}]", "list({{it}})"), ("{{x}}.append({{y}})", "{{x}}.add({{y}})"), ("for {{i}} in {{it}}:\n    {{...+}}", "pass")]
 
 
@@ -206,6 +220,17 @@ def main() -> int:
         return v.finish({})
     rules = rep["value"]
     hist = make_histories(900 if thorough else 160, texts, rules, "h")
+    # deterministic interference pairs: each of the first fixed texts is formatted (three ways), then each other one is requested, and searched with every pattern
+    k = 0
+    for a in FIXED_TEXTS[:4]:
+        for b in FIXED_TEXTS[:4]:
+            for req_opts in ({}, {"safe": True}):
+                k += 1
+                hist.append({"id": f"pair{k}", "history": [{"kind": "format", "text": a, "options": {}}, {"kind": "format", "text": a, "options": {"safe": True}}],
+                             "request": {"kind": "format", "text": b, "options": req_opts}})
+        for pat, rp in PATTERNS[:5]:
+            k += 1
+            hist.append({"id": f"pair{k}", "history": [{"kind": "format", "text": a, "options": {}}], "request": {"kind": "findall", "pattern": pat, "repl": rp, "text": FIXED_TEXTS[0]}})
     tot_h, tot_t = {}, {}
     with pool.Pool() as p, pool.Pool(oneshot=True) as fresh:
         verdict.run_witnesses(v, p)
